@@ -33,7 +33,7 @@ CHECKS = [
   "text": "For every family circuit x photon number x 6 post-selection objects x input sets x expected maps x detector "
           "mode the stated relations between Analyzer, Sampler, QuickSampler and Simulator are evaluated; every side is "
           "computed by the library and only combined by the harness; no object may refuse a circuit the others accept.",
-  "note": "<=2 visible photons; predicates restricted to indexing/iteration (Analyzer/QuickSampler pass lists)"},
+  "note": "<=2 visible photons; rule sets evaluated by the harness from their tuples (not by the library); predicates incl. the State API, truthy answers; expected maps incl. lists, repeated / alien states and a truth table in another order than the inputs"},
  {"id": "C06", "engine": "E1", "ref": "DESIGN.md §3 C06",
   "technique": "bounded exhaustive enumeration of a source-parameter grid x inputs x circuits x backends vs a generative reference",
   "text": "Every point of a grid over brightness, purity, indistinguishability and threshold (boundaries + generic points, "
@@ -71,10 +71,10 @@ CHECKS = [
   "technique": "explicit-state search: Parameter automaton to closure; BFS over parameter updates x circuit templates vs RefCircuit",
   "text": "(A) the Parameter automaton over a finite value/bound alphabet (incl. non-numeric and rejected updates), directly and "
           "through a ParameterDict, is explored to closure: bounds invariant, rejected updates change nothing, documented "
-          "exception types. (B) BFS over interleavings of value/bound updates with construction of 8 placement templates, "
+          "exception types. (B) BFS over interleavings of value/bound updates with construction of 12 placement templates, "
           "copy and freeze; after every transition every live circuit's U equals RefCircuit at the current values or raises "
           "CircuitCompilationError iff a value is invalid for its slot; frozen copies keep their values and list no parameters.",
-  "note": "part B to depth 4 (quick) / 6 (thorough) over 10 placement templates incl. in-place rewrites, at most two live circuits at a time; non-finite values outside the alphabet"},
+  "note": "part B to depth 4 (quick) / 6 (thorough) over 12 placement templates incl. in-place rewrites, at most two live circuits at a time; every state expanded with and without U / get_all_params() read after each step of its history; state key = parameter state + dictionary view + component structure of each circuit; NaN only as a phase"},
  {"id": "C11", "engine": "E2+E3", "ref": "DESIGN.md §3 C11",
   "technique": "explicit-state BFS over reconfiguration histories of long-lived objects with complete vars() fingerprints; differential oracle vs fresh object; sampling laws via choice-point enumeration",
   "text": "BFS over attribute assignments, in-place mutations of circuit/parameters/source, reads and sampling calls on a "
@@ -88,7 +88,7 @@ CHECKS = [
           "decorated with all 13 single-qubit gates, both allow_post_selection values: the converter refuses, or every "
           "accepted amplitude of the converted circuit is one scalar times the Operator column and nothing accepted lies "
           "outside the qubit subspace.",
-  "note": "sequence length <=3 (n=2), <=2 (n=3), 1 (n=4) quick; 4/3/2 thorough; qiskit Operator trusted"},
+  "note": "sequence length <=3 (n=2), <=2 (n=3), 1 (n=4) quick; 4/3/2 thorough; decorated with single-qubit gates on the gate's qubits / on every qubit / not at all; two registers; rotation gates at all multiples of pi/4; 10 s termination guard per conversion; qiskit Operator trusted"},
  {"id": "C13", "engine": "E1", "ref": "DESIGN.md §3 C13",
   "technique": "exhaustive enumeration of the finite gate library x angle alphabet x targets x swap tuples; amplitudes vs literal matrices",
   "text": "Every gate class, every target option, an angle alphabet with special and generic values, SWAP on every 4-tuple of "
@@ -115,14 +115,14 @@ CHECKS = [
   "text": "Every product of <=2 gates of the 12-gate alphabet (1 qubit) and entanglers x 4x4 single-qubit layers (2 qubits): LI "
           "Choi == choi_from_unitary(V), MLE Choi positive/TP with fidelity >= 0.99, gate fidelity equals the closed form for 6 "
           "targets; V is the RefFock dual-rail unitary cross-checked against the literal product.",
-  "note": "MLE on all 1-qubit processes and a fixed slice of 2-qubit ones (iterative solver, seconds each); tomography objects reused across base-circuit edits and repeated fidelity queries"},
+  "note": "MLE on all 1-qubit processes and a fixed slice of 2-qubit ones (iterative solver, seconds each): fidelity >= 0.99, trace preservation to 1e-3, positivity to 1e-9; heralds placed directly on the base circuit; tomography objects reused across base-circuit edits and repeated fidelity queries"},
  {"id": "C17", "engine": "E1", "ref": "DESIGN.md §3 C17",
   "technique": "exhaustive enumeration of small result contents (ordered state selections x valuations x mappings)",
   "text": "Every ordered selection of <=2 inputs and <=3 outputs from the 10 Fock states over 2 modes (and a 3-mode set), with an "
           "injective fingerprint valuation and a degenerate one, real and complex: pair, nested and array indexing agree in the "
           "given order; both mappings x invert x applied once and twice equal the per-mode image with coinciding images added "
           "and conserve each input's total; amplitude results refuse mappings; SamplingResult round-trips every small count dict.",
-  "note": "repeated states in the lists are outside the alphabet"},
+  "note": "repeated states: equal rows for the mappings; with different values only pair == nested indexing is required"},
  {"id": "C18", "engine": "E1", "ref": "DESIGN.md §3 C18",
   "technique": "exhaustive enumeration of small states, label assignments, herald dictionaries in every key order",
   "text": "All occupation lists of length <=3 over {0,1,2}: all pairs and triples for the algebraic laws, all slices, blocked "
@@ -135,7 +135,7 @@ CHECKS = [
   "text": "Every program up to the depth bound over the rich construction alphabet x both back-ends x loss display x parameter "
           "values x labels returns a drawing; wrong label length / unknown type raise DisplayError; circuit fingerprint and "
           "parameter values unchanged.",
-  "note": "n=4 (+ sizes 1,2,6), depth 2/3; matplotlib on every k-th option set for cost; barrier([]) excluded"},
+  "note": "n=4 (+ sizes 1,2,6), depth 2/3; matplotlib on every k-th option set for cost; labels incl. non-strings; swap dictionaries in any key order; phases at every multiple of pi/4 and as numpy scalars"},
 ]
 _REASON = "check not built yet in this session (work in progress; not a claim that the technique cannot apply)"
 NOT_YET = [(f"C{i:02d}", _REASON) for i in range(1, 20) if f"C{i:02d}" not in {c["id"] for c in CHECKS}]
